@@ -120,7 +120,8 @@ Qed.
 (* ------------------------------------------------------------------ triples *)
 (* the failures a computation may end in: anything but the abort that stands for "a variable holds an object of another class than
    its type says" (static_cast on the wrong class in the C++) *)
-Definition bad_site (w : string) : bool := String.eqb w "cell payload disagrees with its type".
+Definition bad_site (w : string) : bool :=
+  String.eqb w "cell payload disagrees with its type" || String.eqb w "Variable::set: payload reinterpreted as another type".
 Definition ok_fail (f : fail) : Prop := match f with FCrash w => bad_site w = false | _ => True end.
 Definition ok_out {A} (o : outcome A) : Prop := match o with Ok _ => True | Fail f => ok_fail f end.
 Definition tr {A} (P : st -> Prop) (m : M A) (Q : A -> st -> Prop) : Prop :=
@@ -805,23 +806,25 @@ Proof.
   - reflexivity.
 Qed.
 Definition typair (d s0 : N) (st0 : st) : Prop :=
-  exists cd cs, nm_get d (s_cells st0) = Some cd /\ nm_get s0 (s_cells st0) = Some cs /\ namesagree (c_type cd) (c_type cs).
+  exists cd cs, nm_get d (s_cells st0) = Some cd /\ nm_get s0 (s_cells st0) = Some cs /\ namesagree (c_type cd) (c_type cs) /\ dk (c_type cd) = dk (c_type cs).
+Lemma dt_eq_kind td ts : dt_eq td ts = true -> dk td = dk ts.
+Proof. unfold dt_eq. destruct (dname td), (dname ts); intros H; try (apply andb_prop in H; destruct H as [H _]); apply dk_eqb_eq in H; exact H. Qed.
 Lemma stable_typair d s0 : stable (typair d s0).
 Proof.
-  intros s s' H [cd [cs [E1 [E2 Hn]]]]. destruct (k_meta _ _ H d cd E1) as [cd' [E1' [_ [M2 _]]]]. destruct (k_meta _ _ H s0 cs E2) as [cs' [E2' [_ [N2 _]]]].
-  exists cd', cs'. split; [exact E1'|]. split; [exact E2'|]. rewrite M2, N2. exact Hn.
+  intros s s' H [cd [cs [E1 [E2 [Hn Hk]]]]]. destruct (k_meta _ _ H d cd E1) as [cd' [E1' [_ [M2 _]]]]. destruct (k_meta _ _ H s0 cs E2) as [cs' [E2' [_ [N2 _]]]].
+  exists cd', cs'. split; [exact E1'|]. split; [exact E2'|]. rewrite M2, N2. split; [exact Hn|exact Hk].
 Qed.
-Definition nfits (dst : N) (src : payload) (s : st) : Prop := exists cl, nm_get dst (s_cells s) = Some cl /\ named_ok src (c_type cl).
+Definition nfits (dst : N) (src : payload) (s : st) : Prop := exists cl, nm_get dst (s_cells s) = Some cl /\ named_ok src (c_type cl) /\ payload_kind src = dk (c_type cl).
 Lemma stable_nfits dst src : stable (nfits dst src).
-Proof. intros s s' H [cl [E Hn]]. destruct (k_meta _ _ H dst cl E) as [cl' [E' [_ [M2 _]]]]. exists cl'. split; [exact E'|]. rewrite M2. exact Hn. Qed.
+Proof. intros s s' H [cl [E [Hn Hk]]]. destruct (k_meta _ _ H dst cl E) as [cl' [E' [_ [M2 _]]]]. exists cl'. split; [exact E'|]. rewrite M2. split; [exact Hn|exact Hk]. Qed.
 Lemma typair_nfits d s0 cs st0 : typair d s0 st0 -> cellmeta s0 cs st0 -> payload_kind (c_val cs) = dk (c_type cs) -> named_ok (c_val cs) (c_type cs) -> nfits d (c_val cs) st0.
 Proof.
-  intros [cd [cs' [E1 [E2 Hn]]]] [c' [E' [_ [M2 _]]]] Hk Hnm. assert (c' = cs') by congruence. subst c'.
-  exists cd. split; [exact E1|]. intros tn Hp. rewrite Hn; [rewrite M2; apply Hnm; exact Hp|]. rewrite M2, <- Hk. eapply pname_kind; eauto.
+  intros [cd [cs' [E1 [E2 [Hn Hkk]]]]] [c' [E' [_ [M2 _]]]] Hk Hnm. assert (c' = cs') by congruence. subst c'.
+  exists cd. split; [exact E1|]. split; [|congruence]. intros tn Hp. rewrite Hn; [rewrite M2; apply Hnm; exact Hp|]. rewrite M2, <- Hk. eapply pname_kind; eauto.
 Qed.
 Lemma hastype_typair e1 e2 t1 t2 s : hastype e1 t1 s -> hastype e2 t2 s -> dt_eq t1 t2 = true -> typair e1 e2 s.
 Proof.
-  intros [c1 [E1 [T1 N1]]] [c2 [E2 [T2 N2]]] H. exists c1, c2. split; [exact E1|]. split; [exact E2|]. rewrite T1, T2. apply dt_eq_namesagree; assumption.
+  intros [c1 [E1 [T1 N1]]] [c2 [E2 [T2 N2]]] H. exists c1, c2. split; [exact E1|]. split; [exact E2|]. rewrite T1, T2. split; [apply dt_eq_namesagree; assumption|apply dt_eq_kind; exact H].
 Qed.
 Definition arrpair (d s0 : N) (st0 : st) : Prop := exists a1 a2, arris d a1 st0 /\ arris s0 a2 st0 /\ dt_eq (a_type a1) (a_type a2) = true.
 Lemma stable_arrpair d s0 : stable (arrpair d s0).
@@ -882,9 +885,12 @@ Proof.
       assert (ELSE : tr (fun s => P s /\ cellmeta dst d s /\ valok (c_val d) s /\ payload_kind (c_val d) = dk (c_type d) /\ named_ok (c_val d) (c_type d))
                         (if dk_eqb (dk (c_type d)) (payload_kind src) then v' <- copy_val f src ;; set_cell_val dst v' else crash "Variable::set: payload reinterpreted as another type")
                         (fun _ _ => True)).
-      { destruct (dk_eqb (dk (c_type d)) (payload_kind src)) eqn:Edk; [|(apply tr_failm; okf)]. apply dk_eqb_eq in Edk.
+      { destruct (dk_eqb (dk (c_type d)) (payload_kind src)) eqn:Edk.
+        2:{ apply tr_false. intros s [Hs [[c' [E' [_ [M2 _]]]] _]]. destruct (HV s Hs) as [_ [_ [cl [Ecl [_ Hkk]]]]]. assert (c' = cl) by congruence. subst c'.
+            assert (X : dk_eqb (dk (c_type d)) (payload_kind src) = true) by (apply dk_eqb_eq; congruence). congruence. }
+        apply dk_eqb_eq in Edk.
         eapply tr_bind; [stab3|apply (proj1 (copy_tr f)); [stab3|intros s [Hs _]; apply (HV s Hs)]|]. intros v'.
-        apply tr_set_cell_val. intros s [[Hs [Hm _]] [Hv [Hk Hp]]]. destruct (HV s Hs) as [Hw [_ [cl [Ecl Hnf]]]]. split; [exact Hw|]. split; [exact Hv|].
+        apply tr_set_cell_val. intros s [[Hs [Hm _]] [Hv [Hk Hp]]]. destruct (HV s Hs) as [Hw [_ [cl [Ecl [Hnf _]]]]]. split; [exact Hw|]. split; [exact Hv|].
         destruct Hm as [c' [E' [_ [M2 _]]]]. assert (c' = cl) by congruence. subst c'.
         exists cl. split; [exact Ecl|]. split; [congruence|eapply named_ok_pname; eauto]. }
       destruct (c_val d) as [| | | | | | | |tn dc] eqn:Ed; try (rewrite <- Ed in ELSE; exact ELSE).
@@ -905,7 +911,7 @@ Proof.
       { unfold P'. split; [exact HP|]. split; [|split].
         - apply Forall_forall. intros [nm v] Hin. destruct (i_recvars s HI dc dx nm v Edx Hrec Hin) as [cl [Ecl Ho]]. exists cl. split; [exact Ecl|]. right. right. exact Ho.
         - apply Forall_forall. intros [dv sv] Hin. destruct (HVars dv sv Hin) as [d [s0 [Ed [Es Hdt]]]]. exists d, s0. split; [exact Ed|]. split; [exact Es|].
-          apply dt_eq_namesagree; [exact Hdt| |]; intros Hk; eapply Inv_type_named; eauto.
+          split; [apply dt_eq_namesagree; [exact Hdt| |]; intros Hk; eapply Inv_type_named; eauto|apply dt_eq_kind; exact Hdt].
         - apply Forall_forall. intros [da sa] Hin. destruct (HArrs da sa Hin) as [a1 [a2 [E1 [E2 Hdt]]]]. exists a1, a2. split; [exact E1|]. split; [exact E2|exact Hdt]. }
       assert (BODY : tr P' (zipM (fun (dv sv : str * N) => s0 <- get_cell (snd sv) ;; set_copy f (snd dv) (c_val s0)) (x_vars dx) (x_vars sx) ;;;
                             zipM (fun (da sa : str * N) =>
